@@ -420,6 +420,7 @@ class Harness:
     def _adapter(self, name, is_fast):
         rec = self.rec
         ad = HObj(f"adapter[{name}]", attrs={"is_fast": is_fast})
+        self.adapter_names = getattr(self, "adapter_names", set()) | {name}
 
         def initialize(state, transition):
             rec.events.append(("initialize", name, state.dict.get("chain"), state.dict.get("label")))
@@ -431,7 +432,7 @@ class Harness:
             rec.events.append(("update", name, state.dict.get("chain"), state.dict.get("label"), adapter_state))
 
         def finalize(adapter_states, chain_states, transition, rngs):
-            rec.events.append(("finalize", name, [(a.get("chain"), a.get("n_update")) for a in self.it.iterate(adapter_states)], [s.dict.get("label") for s in self.it.iterate(chain_states)], list(self.it.iterate(rngs))))
+            rec.events.append(("finalize", name, [(a.get("chain"), a.get("n_update")) for a in self.it.iterate(adapter_states)], [s.dict.get("label") for s in self.it.iterate(chain_states)], list(self.it.iterate(rngs)), getattr(transition, "name", None), sorted({a.get("adapter") for a in self.it.iterate(adapter_states)})))
 
         ad.methods.update({"initialize": initialize, "update": update, "finalize": finalize})
         return ad
@@ -758,6 +759,12 @@ def judge_adaptation(params, out):
                 want_states = [last.get(c, f"c{c}") for c in chains]
                 if list(e[3]) != want_states:
                     v.append(("C16", "finalize-chain-states", f"adapter `{name}` is finalised with the chain states {list(e[3])}; the states at the end of the stage are {want_states} (momenta are re-drawn for, and metrics estimated at, the wrong states) ({where})"))
+                if len(e) > 6:
+                    owner = "t2" if (params["adapters"] == "two-keys" and name == "slow") else "t1"
+                    if e[5] != f"transition[{owner}]":
+                        v.append(("C16", "finalize-transition", f"adapter `{name}` (registered for transition {owner}) is finalised with `{e[5]}`: the adapted parameters are written to another transition ({where})"))
+                    if e[6] != [name]:
+                        v.append(("C16", "finalize-adapter-states", f"adapter `{name}` is finalised with the adaptation states of adapter(s) {e[6]} ({where})"))
                 if sum(n_updates.values()) == 0:
                     v.append(("C16", "finalize-empty-stage", f"adapter `{name}` is finalised after a stage in which it was never updated: initial defaults overwrite the adapted parameters ({where})"))
                 if len(e[4]) != n_chain or any(r is not out["rngs"][c] for c, r in enumerate(e[4])):
@@ -859,6 +866,8 @@ def judge_interrupted(params, full, out):
                 g = g0 + r
                 if _is_fill(tok):
                     if _name(tok) != want_fill:
+                        if _name(tok) != "fill:file-zero" and (params.get("force_memmap") or params.get("n_process", 1) > 1):
+                            v.append(("C15", f"{kind}-fill-kind", f"unwritten rows of chain {c}'s memory-mapped {kind} array hold `{_name(tok)}`; rows not reached must keep the declared fill value `{want_fill}` ({where})"))
                         v.append(("C15" if _name(tok) == "fill:file-zero" else "C13", f"{kind}-fill-kind", f"unwritten rows of chain {c}'s {kind} array hold `{_name(tok)}`; the fill value for the recorded type is `{want_fill}` ({where})"))
                         break
                     # an iteration counts as completed for the trace once its transitions are done; for a trace row the
